@@ -707,8 +707,8 @@ def generate(ctx):
         if i % nsh == sh:
             yield _store_case(rng, n=n, forced=p, fmt='pickle', direction=d)
     # (4) sampled configurations
-    plan = ([('iter_t', ctx.n(1400, 56000)), ('iter_p', ctx.n(150, 9000)), ('batch_t', ctx.n(520, 18000)),
-             ('batch_p', ctx.n(80, 4000)), ('store', ctx.n(150, 6000)), ('align', ctx.n(48, 480))])
+    plan = ([('iter_t', ctx.n(1400, 40000)), ('iter_p', ctx.n(150, 6000)), ('batch_t', ctx.n(520, 13000)),
+             ('batch_p', ctx.n(80, 2800)), ('store', ctx.n(150, 4200)), ('align', ctx.n(48, 480))])
     order = [k for k, c in plan for _ in range(c)]
     rng.shuffle(order)
     for k in order:
